@@ -14,6 +14,8 @@ pub mod c10;
 pub mod c11;
 pub mod c12;
 pub mod c13;
+pub mod c14;
+pub mod c15;
 
 /// (report, rule, explanation, exhaustive-subspace flag)
 pub fn run(prop: &str, ctx: &Ctx) -> Option<(Report, &'static str, &'static str, bool)> {
@@ -31,6 +33,8 @@ pub fn run(prop: &str, ctx: &Ctx) -> Option<(Report, &'static str, &'static str,
         "C11" => (c11::run(ctx), c11::RULE, "", true),
         "C12" => (c12::run(ctx), c12::RULE, "", false),
         "C13" => (c13::run(ctx), c13::RULE, "", false),
+        "C14" => (c14::run(ctx), c14::RULE, "", false),
+        "C15" => (c15::run(ctx), c15::RULE, "", false),
         _ => return None,
     })
 }
